@@ -29,3 +29,28 @@ def class_hashes(repo, ci, methods=("evaluate", "validate", "keys", "explain")):
         if m is not None:
             quals.append(f"{owner.module.name}:{owner.name}.{meth}")
     return fn_hashes(repo, quals)
+
+
+def history_induction(repo=None):
+    """the step from one-operation obligations to all histories, checked by Lean 4 (lean/Histories.lean; no labrea-specific content, no sorry/axiom).
+    returns (syntactic obligations, undecided)"""
+    import os
+    import shutil
+    import subprocess
+    root = os.path.dirname(os.path.dirname(os.path.abspath(__file__)))
+    path = os.path.join(root, "lean", "Histories.lean")
+    lean = shutil.which("lean")
+    if lean is None or not os.path.exists(path):
+        return [], [("lean/Histories.lean", ["lean is not on PATH" if lean is None else "file missing"])]
+    src = open(path).read()
+    body = src.split("-/", 1)[-1]
+    clean = not any(w in body for w in ("sorry", "axiom ", "admit", "native_decide", "unsafe "))
+    try:
+        r = subprocess.run([lean, path], capture_output=True, text=True, timeout=300, cwd=os.path.dirname(path))
+        ok, detail = r.returncode == 0 and "error" not in (r.stdout + r.stderr), (r.stdout + r.stderr)[:200]
+    except Exception as e:  # noqa
+        return [], [("lean/Histories.lean", [f"lean did not run: {e}"])]
+    out = []
+    for thm in ("inv_of_reach", "good_along_histories", "stored_stays_stored"):
+        out.append({"name": f"Histories:lean:{thm}", "ok": bool(ok and clean and f"theorem {thm}" in src), "detail": detail or "checked by lean 4 (kernel)", "group": "Histories:lean"})
+    return out, []
